@@ -18,7 +18,7 @@ For each change i in 1..3 create the directory /tmp/mut/out/@id@_<i>/ containing
   - patch.diff : output of `git diff` for that change alone against the unchanged tree (apply with `git apply`),
   - demo.py : a small self-contained program (run as `PYTHONPATH=<tree> /venv/bin/python demo.py`) that exits 0 on the unchanged tree and exits non-zero (assertion failure) with the change applied, demonstrating the property violation on a concrete input or operation sequence,
   - meta.json : {"property": "@ID@", "summary": "...what was changed...", "needs": "...what specific input/sequence/condition is needed to manifest...", "ran": ["commands you ran and their outcomes, including the pytest pass count with the change applied and demo exit codes with/without the change"]}.
-After producing each patch, reset the worktree (`git checkout -- .`) so the next one starts from the unchanged tree. Verify everything yourself: the test-suite pass count with each change applied (must still be 405 passed), and the demo behaviour with and without. Final message: a 10-line summary of the three changes.'''
+Never use `git stash` (the stash is shared with other worktrees of the repository; save work with `git diff > file` instead). After producing each patch, reset the worktree (`git checkout -- .`) so the next one starts from the unchanged tree. Verify everything yourself: the test-suite pass count with each change applied (must still be 405 passed), and the demo behaviour with and without. Final message: a 10-line summary of the three changes.'''
 os.makedirs("/root/work/prompts", exist_ok=True)
 for l in open(os.path.join(os.path.dirname(os.path.dirname(os.path.abspath(__file__))), "properties.jsonl")):
     p = json.loads(l)
